@@ -35,6 +35,7 @@ use std::ffi::{CStr, CString};
 use std::net::IpAddr;
 use std::os::raw::c_char;
 
+#[allow(improper_ctypes)]
 extern "C" {
     fn redirectionio_action_json_deserialize(s: *mut c_char) -> *const Action;
     fn redirectionio_action_json_serialize(a: *mut Action) -> *const c_char;
@@ -1441,7 +1442,35 @@ fn gen(args: &Args, emit: &mut dyn FnMut(Value)) {
                 let (sty, sj) = rng.pick(&subs).clone();
                 let mut m = sj.clone();
                 let mut classes = Vec::new();
-                if rng.chance(4, 5) {
+                if sty == "body_filter" && rng.chance(1, 3) {
+                    // make the object fit both variants of the untagged union (the order of the variants decides)
+                    if let J::O(kvs) = &mut m {
+                        let is_text = kvs.iter().any(|(k, _)| k == "content");
+                        if is_text {
+                            let at = rng.below(kvs.len() + 1);
+                            kvs.insert(at, ("value".into(), J::S("v".into())));
+                            let at = rng.below(kvs.len() + 1);
+                            kvs.insert(at, ("element_tree".into(), J::A(vec![J::S("p".into())])));
+                        } else {
+                            for (k, v) in kvs.iter_mut() {
+                                if k == "action" {
+                                    *v = match rng.below(3) {
+                                        0 => J::S((*rng.pick(TEXT_ACTIONS)).into()),
+                                        1 => J::O(vec![((*rng.pick(TEXT_ACTIONS)).into(), J::Null)]),
+                                        _ => v.clone(),
+                                    };
+                                }
+                            }
+                            let at = rng.below(kvs.len() + 1);
+                            kvs.insert(at, ("content".into(), J::S("c".into())));
+                            if rng.chance(1, 4) {
+                                let at = rng.below(kvs.len() + 1);
+                                kvs.insert(at, ("content".into(), J::S("d".into())));
+                            }
+                        }
+                    }
+                    classes.push("fit-both");
+                } else if rng.chance(4, 5) {
                     classes.push(mutate(&mut rng, &mut m));
                 } else {
                     classes.push("none");
